@@ -12,7 +12,7 @@ use serde_json::json;
 pub const KINDS: [Kind; 9] = [Kind::Sma, Kind::Wma, Kind::Sd, Kind::Bb, Kind::Mad, Kind::Cci, Kind::Mfi, Kind::Min, Kind::Max];
 pub const PERIODS: [usize; 9] = [1, 2, 3, 5, 7, 14, 50, 200, 1000];
 
-pub const RULE: &str = "SOAK: one instance fed N consecutive inputs without reset (N = 2*10^5 quick, 2*10^6 thorough) for SMA/WMA/SD/BB/MAD/CCI/MFI/MIN/MAX x periods {1,2,3,5,7,14,50,200,1000} x regimes {random walk, alternating extremes, spikes, plateaus, saw-tooth with tooth lengths 7/100/997/1000/1024, alternating exact values} x band floor m in {1e-3,1,1e6} (a seeded subset of the combinations per run; bars for CCI/MFI are built around the price path with independent high/low/close and volume over 6 decades). Judged on the first 3000 steps, every 997th step and the last, against a double-double recomputation from the harness's own copy of the window: tau(t)*M (M^2 on variances; x condition number for CCI, c<=1e6, and MFI, c<=1000); MIN/MAX exact; variance never negative/NaN. Non-trivial: every soak run (longer than the period by construction); distinct by construction (combination index).";
+pub const RULE: &str = "SOAK: one instance fed N = 2.2*10^6 consecutive inputs without reset (MAD/CCI, which cost O(n) per input: 2.2*10^5 in quick) for SMA/WMA/SD/BB/MAD/CCI/MFI/MIN/MAX x periods {1,2,3,5,7,14,50,200,1000} x regimes {random walk, alternating extremes, spikes, plateaus, saw-tooth with tooth lengths 7/100/997/1000/1024, alternating exact values} x band floor m in {1e-3,1,1e6} (a seeded subset of the combinations per run; bars for CCI/MFI are built around the price path with independent high/low/close and volume over 6 decades). Judged on the first 3000 steps, every 997th step and the last, against a double-double recomputation from the harness's own copy of the window: tau(t)*M (M^2 on variances; x condition number for CCI, c<=1e6, and MFI, c<=1000); MIN/MAX exact; variance never negative/NaN. Non-trivial: every soak run (longer than the period by construction); distinct by construction (combination index).";
 
 fn judge(p: &Params, out: &Out, r: &RefOut, js: &mut Judgements) -> usize {
     match p.kind {
@@ -129,7 +129,10 @@ pub fn soak(rep: &mut Report, p: &Params, regime: Regime, m: f64, steps: usize, 
 }
 
 pub fn run(ctx: &Ctx) -> Report {
-    let steps = ctx.pick(200_000usize, 2_000_000usize);
+    // 2.2e6 > 2^21: crosses every power-of-two input count up to 2*10^6. The O(1)-per-step indicators
+    // run the full length in both tiers (~0.2 s per run); MAD and CCI are O(n) per step and run
+    // 2*10^5 steps in quick, the full length in thorough for n <= 50.
+    let steps = 2_200_000usize;
     let ms = [1e-3, 1.0, 1e6];
     let regs = regimes();
     // full cross product = 9 kinds x 9 periods x 10 regimes x 3 m = 2430 runs; take a seeded subset
@@ -160,12 +163,14 @@ pub fn run(ctx: &Ctx) -> Report {
     // longest jobs first for better packing
     jobs.sort_by_key(|j| std::cmp::Reverse(j.1 * if matches!(j.0, Kind::Mad | Kind::Cci) { 10 } else { 1 }));
     let seed = ctx.seed;
+    let quick = ctx.quick();
     let mut rep = par_run(jobs, ctx.threads, move |(kind, n, regime, m, idx), rep| {
         let mut p = Params::new1(*kind, *n);
         if *kind == Kind::Bb {
             p.k = [2.0, 0.5, 1.0][(*idx % 3) as usize];
         }
-        let st = if matches!(kind, Kind::Mad | Kind::Cci) && *n >= 200 { steps / 4 } else { steps };
+        let heavy_kind = matches!(kind, Kind::Mad | Kind::Cci);
+        let st = if heavy_kind && (quick || *n >= 200) { if *n >= 200 { steps / 40 } else { steps / 10 } } else { steps };
         soak(rep, &p, *regime, *m, st, seed ^ idx.wrapping_mul(0x9E3779B97F4A7C15));
         rep.count(&format!("regime.{}", regime.label()));
         rep.count(&format!("period.{}", n));
